@@ -5,9 +5,10 @@
    - step: the member has its topic registered through a verif hook, no Synchronize loop runs; operations are
      HandleMessage(from, bytes), freeze (copy of memberToView = what the Range of intersectedView sees now),
      pass2 (intersectedView evaluated with that copy while the registered state is live: a HandleMessage landed
-     in between), pass (intersectedView on the live state), drain (responses channel);
+     in between), pass (intersectedView on the live state), drain (responses and queries channels);
    - sync: a real Synchronize runs in a goroutine and is brought to rest after every operation; the model is
-     "settled" the same way (one full intersectedView while in the first loop, then every waiting response taken);
+     "settled" the same way (one full intersectedView while in the first loop, then every waiting response and every
+     waiting query taken);
      additional observables: the last membership broadcast, the query broadcast, the continuation argument, the
      return class. *)
 Require Import TSS.Base.Base TSS.Wire.Codec TSS.Disc.Sort TSS.Disc.Model TSS.Disc.Wire.
